@@ -209,13 +209,55 @@ def r15_hash_eq(ctx):
         raise AnalysisError('__eq__/__hash__ not found')
     ctx.fn(eq)
     ctx.fn(hs)
-    rets = [n for n in astq.walk_shallow(eq.node) if isinstance(n, ast.Return)]
-    ok = len(rets) == 1 and unparse(rets[0].value) in ('vars(self) == vars(other)', 'vars(other) == vars(self)')
-    ctx.require(ok, 'R15.5', '__eq__', ctx.where(eq), 'equality is not vars(self) == vars(other)', construct=f'{eq.qname}::vars')
-    rets = [n for n in astq.walk_shallow(hs.node) if isinstance(n, ast.Return)]
-    ok = len(rets) == 1 and unparse(rets[0].value) in ('hash(tuple(sorted(vars(self).items())))', 'hash(frozenset(vars(self).items()))')
-    ctx.require(ok, 'R15.5', '__hash__', ctx.where(hs), 'the hash is not a function of all of vars(self) (equal messages must hash equal)',
-                construct=f'{hs.qname}::vars')
+    # abstractly interpreted: equal attribute dicts (whatever the insertion order) compare equal and hash equal; a difference
+    # in any one attribute - time included - compares unequal; the hash depends on nothing but vars(self)
+    ai = smf.make_interp(ctx)
+    ai.builtin_summaries['hash'] = lambda i, a, k, n: ('hash', repr(a[0]) if a else '')
+    freeze = ctx.p.func(FZ, 'freeze_message')
+
+    def build(kind, delta=None, reverse=False, frozen=True):
+        vals = {'channel': 1, 'note': 2, 'velocity': 3}
+        time = 4
+        if kind == 'note_on':
+            if delta in vals:
+                vals[delta] += 1
+            m = wire.make_message(ctx, 'note_on' if delta != 'type' else 'note_off', vals, time + (1 if delta == 'time' else 0))
+        else:
+            m = wire.make_meta(ai, ctx, 'set_tempo' if delta != 'type' else 'text', {'tempo': 500000 + (1 if delta == 'tempo' else 0)} if delta != 'type' else {'text': 'x'},
+                               time + (1 if delta == 'time' else 0))
+        if frozen:
+            m = ai.call_function(freeze, [m], {})
+        if reverse:
+            items = list(m.attrs.items())[::-1]
+            m.attrs.clear()
+            m.attrs.update(items)
+        return m
+    n = 0
+    for kind, attrs in (('note_on', ['channel', 'note', 'velocity', 'time', 'type']), ('set_tempo', ['tempo', 'time', 'type'])):
+        for frozen in (False, True):
+            lab = f'{"frozen " if frozen else ""}{kind}'
+            outs = ai.explore(lambda: ai.call_function(eq, [build(kind, frozen=frozen), build(kind, reverse=True, frozen=frozen)], {}))
+            n += 1
+            ctx.require(len(outs) == 1 and outs[0].kind == 'return' and outs[0].value is True, 'R15.5', f'__eq__({lab}, same attributes in another insertion order)',
+                        ctx.where(eq), f'two messages with equal attributes compare {outs}', construct=f'{eq.qname}::vars')
+            for d in attrs:
+                outs = ai.explore(lambda: ai.call_function(eq, [build(kind, frozen=frozen), build(kind, delta=d, frozen=frozen)], {}))
+                n += 1
+                ctx.require(len(outs) == 1 and outs[0].kind == 'return' and outs[0].value is False, 'R15.5', f'__eq__({lab}, {d} differs)', ctx.where(eq),
+                            f'messages that differ in {d} compare {outs}', construct=f'{eq.qname}::vars')
+        outs = ai.explore(lambda: ai.call_function(eq, [build(kind), 5], {}))
+        ctx.require(bool(outs) and all(o.kind == 'raise' and o.exc == 'TypeError' for o in outs), 'R15.5', f'__eq__({kind}, 5)', ctx.where(eq),
+                    f'comparison with a non-message gives {outs} (documented: TypeError)', construct=f'{eq.qname}::non-message')
+        outs = ai.explore(lambda: (ai.call_function(hs, [build(kind)], {}), ai.call_function(hs, [build(kind, reverse=True)], {})))
+        n += 1
+        ok = len(outs) == 1 and outs[0].kind == 'return' and isinstance(outs[0].value[0], tuple) and outs[0].value[0] == outs[0].value[1] \
+            and 'Opaque' not in repr(outs[0].value[0])
+        ctx.require(ok, 'R15.5', f'__hash__(frozen {kind})', ctx.where(hs),
+                    f'two equal frozen messages whose attributes were stored in different order hash {outs} (equal messages must hash equal, '
+                    'from vars(self) only)', construct=f'{hs.qname}::vars')
+    ctx.floor('R15.5-eq-hash', n, 20)
+    for q in ai.inlined:
+        ctx.functions.add(q)
     # no subclass overrides __eq__ / __hash__ inconsistently
     for m in ctx.p.modules.values():
         for c in m.classes.values():
